@@ -37,6 +37,8 @@ Proof.
 Qed.
 Lemma wants_help_plain l : forallb lead_ok l = true -> wants_help l = false.
 Proof. intros H. unfold wants_help. now rewrite !has_token_plain. Qed.
+Lemma wants_version_plain l : forallb lead_ok l = true -> wants_version l = false.
+Proof. intros H. unfold wants_version. now rewrite !has_token_plain. Qed.
 
 (* ================= a format finds an option only under the option's own names ================= *)
 (* the short index holds listed options under their short names (build_format rebuilds it that way), at every level *)
@@ -477,7 +479,8 @@ Section Run.
       cbn [bind b_subs hc]. change (defaults_of []) with (@nil bcmd). cbn [pick_default bind b_fmt b_lenient].
       change (b_fmt hc) with f. change (b_lenient hc) with len.
       now rewrite (parse_help_line f arg Hinv Hargs Hcns M T path Hplain Hne len). }
-    change (args_is_option_set f {| ar_opts := []; ar_args := help_args f path |} S_version) with false. cbv iota.
+    change (args_is_option_set f {| ar_opts := []; ar_args := help_args f path |} S_version) with false.
+    rewrite (wants_version_plain _ Hl). cbn [orb]. cbv iota.
     rewrite str_eqb_refl. change (AName [99;111;109;109;97;110;100]%N) with (AName COMMAND). now rewrite command_is_set.
   Qed.
 
@@ -514,7 +517,10 @@ Section Run.
     unfold find_cmd. rewrite Hall. change (b_fmt hc) with f.
     rewrite (parse_switch_value f o sw true path _ Hcar Hnv Hso Hplain
                (parse_path_line f arg Hinv Hargs Hcns M T path Hplain Hne true Hh) eq_refl).
-    cbn [ar_args]. rewrite version_not_set. change (AName [99;111;109;109;97;110;100]%N) with (AName COMMAND).
+    cbn [ar_args]. rewrite version_not_set.
+    assert (wants_version (path ++ [sw]) = false) as ->.
+    { unfold wants_version. rewrite !has_token_app, (has_token_plain T_V _ eq_refl Hplain), (has_token_plain T_version _ eq_refl Hplain). destruct Hsw as [->| ->]; reflexivity. }
+    cbn [orb]. change (AName [99;111;109;109;97;110;100]%N) with (AName COMMAND).
     now rewrite command_is_set.
   Qed.
 End Run.
